@@ -290,9 +290,35 @@ class Splitter:
         return a == b
 
 
+def equivalent(a: Any, b: Any, facts: list[Lin] | None = None,
+               integer: bool = True, max_cases: int = 5000) \
+        -> tuple[bool, str]:
+    """Are two (conditional) values equal on every consistent outcome of
+    the comparisons they contain?  Returns (verdict, first difference)."""
+    sp = Splitter(integer=integer, max_cases=max_cases)
+    try:
+        for fs, (x, y), trail in sp.cases((a, b), list(facts or [])):
+            if is_cond(x) != is_cond(y):
+                return False, f"[{describe(trail)}] {x!r} vs {y!r}"
+            if not sp.equal(x, y, fs):
+                return False, (f"[{describe(trail)[:200]}] "
+                               f"{_show(x)} vs {_show(y)}")
+    except Unsupported as u:
+        return False, f"case analysis failed: {u}"
+    return True, ""
+
+
+def _show(v: Any) -> str:
+    if is_cond(v):
+        return show_cond(v)
+    if isinstance(v, Poly):
+        return show(v)
+    return repr(v)
+
+
 def describe(trail: tuple) -> str:
     return " and ".join(("" if t else "not ") + "(" + show_cond(c) + ")"
                         for c, t in trail) or "always"
 
 
-__all__ = ["Splitter", "describe", "is_cond", "show"]
+__all__ = ["Splitter", "describe", "equivalent", "is_cond", "show"]
